@@ -6,6 +6,8 @@ from fractions import Fraction
 
 import numpy as np
 
+from .sharing import sharing as _sharing
+
 from .core import nrs, rs
 from .impl1 import REFUSED, Store, arr, fl, mk_binning, np_dtype, num_of
 
@@ -233,5 +235,5 @@ def run(case: dict):
     outs, log = [], []
     for op in case["ops"]:
         ret = step(s, op, log)
-        outs.append({"ret": ret, "regs": [None if x is None else snapn(x) for x in s.regs]})
+        outs.append({"ret": ret, "regs": [None if x is None else snapn(x) for x in s.regs], "_sharing": _sharing(s.regs)})
     return outs, log
